@@ -19,7 +19,7 @@ LEVEL = "exploration"
 RULE = {
     "C03": "Random dataflow programs (5-60 ops over smooth unary/binary ops, alias chains, gathers, reductions, value-steered if/while/recursion/closures, user-defined logging primitives; fan-out, multi-edges f(a,a), dead branches) + random explicit DAGs fed to autograd.util.toposort. A program is non-trivial iff its output depends on x, autograd returned a gradient, the FD reference was self-consistent and the recorded backward pass contained >= 3 rule applications. distinct = distinct structural signatures (op set, #ops, multi-edges, max fan-out, dead ops).",
     "C10": "Random programs with alias chains at/below the end node, fan-in, sparse/dense mixes; each run with frozen (writeable=False) and with writable hashed foreign arrays; VJP/JVP closures called in generated histories (same g twice, different g, interleaved closures, jacobian) and compared bitwise with fresh single calls. Non-trivial iff >= 3 closure calls were compared and >= 1 accumulation with fan-in happened. distinct = distinct (program structure, history) signatures.",
-    "C11": "Index expressions of every NumPy kind on arrays of rank 0-4 (pre-validated on NumPy) judged against the exact bincount scatter oracle in both modes, and mixing programs with k sparse and m dense uses of one value in generated creation/association orders judged against the analytic dense sum. Non-trivial iff the index selects >= 1 element. distinct = distinct (index class, rank) resp. (k, m, arrival pattern) signatures.",
+    "C11": "Index expressions of every NumPy kind on arrays of rank 0-4 (pre-validated on NumPy) judged against the exact bincount scatter oracle in both modes, and mixing programs with k sparse and m dense uses of one value in generated creation/association orders (values of rank 0-3 incl. size-1, sparse uses linear or quadratic, optionally through a sibling that shares its first cotangent - constant or itself a function of x) judged against the analytic dense sum at first order and, with the accumulation running under an enclosing differentiation, against the FD of the gradient (reverse over reverse, forward over reverse); an exception from autograd on a program NumPy runs is a violation. Non-trivial iff the index selects >= 1 element. distinct = distinct (index class, rank) resp. (k, m, arrival pattern) signatures.",
 }
 ASSUMPTIONS = {
     "C03": ["rule-application events come from wrapping VJPNode.__init__/backward_pass (probe attachment recorded); value verdicts are at the API boundary against FD of the same op list on raw NumPy"],
@@ -816,7 +816,7 @@ def c11_make_mix(rng, tier, i):
     order = [int(t) for t in rng.permutation(len(terms))]
     assoc = str(rng.choice(["left", "right", "tree", "python_sum", "nested_fn"]))
     via = str(rng.choice(["direct", "through_alias", "through_mul", "sibling", "sibling"]))
-    return {"kind": "mix", "x": enc(rng.standard_normal(shape)), "terms": terms, "order": order, "assoc": assoc, "via": via, "wseed": int(rng.integers(0, 2**31)), "k": k, "m": m}
+    return {"kind": "mix", "x": enc(rng.standard_normal(shape)), "terms": terms, "order": order, "assoc": assoc, "via": via, "wseed": int(rng.integers(0, 2**31)), "k": k, "m": m, "sparse_pow": int(rng.integers(1, 3)), "sib_nl": bool(rng.integers(0, 2))}
 
 
 def c11_mix_case(res, case, tier):
@@ -826,6 +826,7 @@ def c11_mix_case(res, case, tier):
     x = dec(case["x"])
     terms = case["terms"]
     rng = onp.random.Generator(onp.random.PCG64(case["wseed"]))
+    spow = int(case.get("sparse_pow", 1))  # sparse uses enter as sum(w * t[idx]) or sum(w * t[idx]**2)
     expected = onp.zeros(x.shape)
     built = []
     pattern = []
@@ -839,7 +840,8 @@ def c11_mix_case(res, case, tier):
             except Exception:
                 continue
             w = rng.standard_normal(sel.shape)
-            expected = expected + onp.bincount(onp.asarray(ids).ravel(), weights=w.ravel(), minlength=x.size).reshape(x.shape)
+            wq = w if spow == 1 else 2.0 * w * sel
+            expected = expected + onp.bincount(onp.asarray(ids).ravel(), weights=onp.asarray(wq).ravel(), minlength=x.size).reshape(x.shape)
             built.append(("sparse", idx, w))
             pattern.append("S")
         else:
@@ -849,7 +851,7 @@ def c11_mix_case(res, case, tier):
             pattern.append("D")
     if not built:
         return _nj(res, "numpy_rejects_config")
-    sig = {"engine": "graph", "family": "mix", "k": pattern.count("S"), "m": pattern.count("D"), "pattern": "".join(pattern), "assoc": case["assoc"], "via": case["via"], "rank": x.ndim}
+    sig = {"engine": "graph", "family": "mix", "k": pattern.count("S"), "m": pattern.count("D"), "pattern": "".join(pattern), "assoc": case["assoc"], "via": case["via"], "rank": x.ndim, "spow": spow}
     scale = 1.0 if case["via"] != "through_mul" else 1.0
 
     sib = case["via"] == "sibling"
@@ -863,10 +865,13 @@ def c11_mix_case(res, case, tier):
         for (kind, a, w) in built:
             if kind == "sparse":
                 ids = onp.arange(x.size).reshape(x.shape)[a]
-                exp_v = exp_v + onp.bincount(onp.asarray(ids).ravel(), weights=onp.asarray(w).ravel(), minlength=x.size).reshape(x.shape)
+                wq = w if spow == 1 else 2.0 * w * onp.asarray(v_np[a])
+                exp_v = exp_v + onp.bincount(onp.asarray(ids).ravel(), weights=onp.asarray(wq).ravel(), minlength=x.size).reshape(x.shape)
             else:
                 exp_v = exp_v + DENSE[a][1](v_np, w)
-        expected = (exp_v + cw) * onp.cos(x) + (cw + 2 * dw * u_np) * (-onp.sin(x))
+        # sib_nl: s enters through cw*s*s, so the cotangent v and u share is itself a function of x
+        gs_np = cw * (2.0 * (v_np + u_np) if case.get("sib_nl") else 1.0)
+        expected = (exp_v + gs_np) * onp.cos(x) + (gs_np + 2 * dw * u_np) * (-onp.sin(x))
 
     def f(xp, t):
         if case["via"] == "through_alias":
@@ -876,14 +881,15 @@ def c11_mix_case(res, case, tier):
         if sib:
             v_ = xp.sin(t)
             u_ = xp.cos(t)
+            sfun = (lambda s__: xp.sum(cw * s__ * s__)) if case.get("sib_nl") else (lambda s__: xp.sum(cw * s__))
             if not late:
                 s_ = v_ + u_
-                first = xp.sum(cw * s_)
+                first = sfun(s_)
             t = v_
         vals = []
         for (kind, a, w) in built:
             if kind == "sparse":
-                vals.append(xp.sum(w * t[a]))
+                vals.append(xp.sum(w * t[a]) if spow == 1 else xp.sum(w * t[a] ** 2))
             else:
                 vals.append(xp.sum(DENSE[a][0](xp, t, w)))
         if sib:
@@ -892,7 +898,7 @@ def c11_mix_case(res, case, tier):
                 # v + u is created last, so its (shared) cotangent reaches v and u first in the backward pass
                 usq = xp.sum(dw * u_ * u_)
                 s_ = v_ + u_
-                vals = [usq] + vals + [xp.sum(cw * s_)]
+                vals = [usq] + vals + [sfun(s_)]
             else:
                 vals = [first] + vals + [xp.sum(dw * u_ * u_)]
         if case["assoc"] == "left":
@@ -946,6 +952,29 @@ def c11_mix_case(res, case, tier):
             _cnt(res, "fwd_mix_checked")
         except NotImplementedError:
             _cnt(res, "fwd_unsupported")
+        # second order: the accumulation itself runs under an enclosing differentiation (cotangents are tracers)
+        if x.size and x.size <= 12:
+            G = lambda t_: make_vjp(lambda q: f(anp, q), t_)[0](1.0)
+            w2 = rng.standard_normal(x.shape)
+            try:
+                fdH = common.fd_directional(lambda xf: onp.asarray(G(onp.reshape(xf, x.shape)), dtype=float).ravel(), x.ravel(), w2.ravel())
+                if fdH.ok:
+                    ref = fdH.val.reshape(x.shape)
+                    tolH = 1e-6 * (1.0 + float(onp.max(onp.abs(ref))))
+                    rr = make_vjp(lambda t_: anp.sum(G(t_) * w2), x)[0](1.0)
+                    if onp.shape(rr) != x.shape or float(onp.max(onp.abs(onp.asarray(rr) - ref))) > tolH:
+                        return _viol(res, dict(sig, mode="rev.rev"), "wrong_value", case, "Hessian-vector product through the traced accumulation (reverse over reverse) deviates from the FD of the gradient by %r" % (float(onp.max(onp.abs(onp.asarray(rr) - ref))) if onp.shape(rr) == x.shape else "shape"))
+                    try:
+                        fr = make_jvp(G, x)(w2)[1]
+                        if onp.shape(fr) != x.shape or float(onp.max(onp.abs(onp.asarray(fr) - ref))) > tolH:
+                            return _viol(res, dict(sig, mode="fwd.rev"), "wrong_value", case, "forward over reverse through the accumulation deviates by %r" % (float(onp.max(onp.abs(onp.asarray(fr) - ref))) if onp.shape(fr) == x.shape else "shape"))
+                    except NotImplementedError:
+                        pass
+                    _cnt(res, "second_order_mix_checked")
+            except NotImplementedError:
+                _cnt(res, "second_order_unsupported")
+            except Exception as e:
+                return _viol(res, dict(sig, mode="order2"), "exception:" + type(e).__name__, case, traceback.format_exc()[-500:])
     _ok(res, sig)
     if res["evaluations"] % 200 == 1:
         res["samples"].append({"shape": list(x.shape), "pattern": "".join(pattern), "assoc": case["assoc"], "via": case["via"], "sparse_classes": [t["cls"] for t in terms if t["t"] == "sparse"]})
